@@ -1,5 +1,188 @@
-/- C18 — property theorems (to be written). -/
-import SoundeventModel.Basic
+/-
+  C18 — audio paths of an AOEF document: `relative_to` / join on POSIX pure paths, and what
+  `save` stores for the recordings when an audio directory is given.
+-/
+import Proofs.Lemmas.AoefClosure
 namespace SE.Proofs.C18
+open SE SE.Paths SE.Aoef
+
+/-! concrete paths for the non-vacuity examples -/
+def exA : PPath := ⟨"/", ["data", "audio"]⟩
+def exB : PPath := ⟨"/", ["mnt", "x"]⟩
+def exX : PPath := ⟨"", ["sub dir", "ñ.wav"]⟩
+def exOut : PPath := ⟨"/", ["data", "other", "a.wav"]⟩
+
+/-- `p.relative_to(A)` succeeds exactly when `A` is an ancestor-or-self of `p` (same anchor, parts a
+    prefix), the result is the relative path of the remaining parts; otherwise `ValueError` -/
+theorem C18_relative_iff (p A q : PPath) :
+    (relativeTo p A = .ok q ↔ (inside p A ∧ q = ⟨"", p.parts.drop A.parts.length⟩)) ∧
+    (¬ inside p A → relativeTo p A = .error .invalid) :=
+  ⟨relativeTo_ok_iff p A q, relativeTo_not_inside p A⟩
+
+example : inside (join exA exX) exA := by decide
+example : relativeTo (join exA exX) exA = .ok exX := by decide
+example : ¬ inside exOut exA := by decide
+example : relativeTo exOut exA = .error .invalid := by decide
+
+theorem C18_relative_join (A x : PPath) (hx : x.root = "") : relativeTo (join A x) A = .ok x :=
+  relativeTo_join A x hx
+
+example : exX.root = "" := rfl
+
+theorem C18_join_relative (p A q : PPath) (h : relativeTo p A = .ok q) : join A q = p :=
+  join_relativeTo p A q h
+
+example : relativeTo ⟨"/", ["data", "audio", "sub dir", "ñ.wav"]⟩ exA = .ok exX := by decide
+
+/-- saving under `A` and loading under `B` maps `A/x` to `B/x` -/
+theorem C18_relocate (A B x : PPath) (hx : x.root = "") :
+    relocated (some A) (some B) (join A x) = join B x := by
+  unfold relocated
+  simp only [storedPath, relativeTo_join A x hx, loadedPath]
+
+example : relocated (some exA) (some exB) (join exA exX) = ⟨"/", ["mnt", "x", "sub dir", "ñ.wav"]⟩ := by
+  decide
+
+/-- without audio directories paths are stored and loaded unchanged -/
+theorem C18_passthrough (p : PPath) :
+    relocated none none p = p ∧ storedPath none p = .ok p ∧ loadedPath none p = p :=
+  ⟨rfl, rfl, rfl⟩
+
+/-! concrete collections for the non-vacuity examples -/
+def recIn : Recording :=
+  { uuid := "r1", path := ⟨"/", ["data", "audio", "sub dir", "ñ.wav"]⟩, duration := "1.0", channels := "1",
+    samplerate := "8000" }
+def recOut : Recording :=
+  { uuid := "r2", path := exOut, duration := "1.0", channels := "1", samplerate := "8000" }
+/-- a second recording object with the uuid of `recIn` but a path outside `exA` (incoherent sharing) -/
+def recOutSame : Recording := { recOut with uuid := "r1" }
+def caOf (u : Atom) (r : Recording) : ClipAnnotation :=
+  { uuid := u, clip := ⟨"c" ++ u, r, "0", "1", []⟩, created_on := "t" }
+def exGood : Collection := .annotationSet ⟨"as", [caOf "1" recIn], "t"⟩
+def exBad : Collection := .annotationSet ⟨"as", [caOf "1" recIn, caOf "2" recOut], "t"⟩
+def exIncoh : Collection := .annotationSet ⟨"as", [caOf "1" recIn, caOf "2" recOutSame], "t"⟩
+def exBadRS : Collection := .recordingSet ⟨"rs", [recIn, recOut], "t"⟩
+
+/-- every stored path is the recording's path relative to `A` -/
+theorem C18_stored_relative (c : Collection) (A : PPath) (d : Doc) (h : save c (some A) = .ok d) :
+    ∀ o ∈ lst d.recordings, ∃ r ∈ recsOf c.trav, o.uuid = r.uuid ∧ relativeTo r.path A = .ok o.path := by
+  obtain ⟨rs, hrs, spec⟩ := save_spec h
+  rw [spec.recordings]
+  intro o ho
+  obtain ⟨r, hr, henc⟩ := forall₂_mem_right (mapM_ok_forall₂.1 hrs) o ho
+  obtain ⟨q, hq, rfl⟩ := encRecording_ok_iff.1 henc
+  exact ⟨r, recSrc_subset hr, rfl, hq⟩
+
+example : ∃ d, save exGood (some exA) = .ok d ∧ (lst d.recordings).map (·.path) = [exX] := ⟨_, rfl, rfl⟩
+
+/-- every reachable recording is stored, with its path relative to `A` -/
+theorem C18_every_recording_stored (c : Collection) (A : PPath) (d : Doc) (hwf : WF c)
+    (h : save c (some A) = .ok d) :
+    ∀ r ∈ recsOf c.trav, ∃ o ∈ lst d.recordings, o.uuid = r.uuid ∧ relativeTo r.path A = .ok o.path := by
+  obtain ⟨rs, hrs, spec⟩ := save_spec h
+  rw [spec.recordings]
+  intro r hr
+  obtain ⟨o, ho, henc⟩ :=
+    forall₂_mem_left (mapM_ok_forall₂.1 hrs) r ((recSrc_iff_of_coherent hwf.recs).2 hr)
+  obtain ⟨q, hq, rfl⟩ := encRecording_ok_iff.1 henc
+  exact ⟨_, ho, rfl, hq⟩
+
+example : WF exGood ∧ ∃ d, save exGood (some exA) = .ok d := ⟨WF_of_wfB (by decide), _, rfl⟩
+
+/-- the only error of the recording encoder is `ValueError` -/
+theorem encRecording_error_invalid {tids : List Tag} {A : PPath} {r : Recording} {e : Err}
+    (h : encRecording tids (some A) r = .error e) : e = .invalid :=
+  (relativeTo_error _ _ _ (encRecording_error h)).1
+
+/-- a recording among those that are encoded lies outside `A`: saving fails as a whole -/
+theorem outside_fails_src (c : Collection) (A : PPath) (r : Recording) (hr : r ∈ recSrc c)
+    (hout : ¬ inside r.path A) : save c (some A) = .error .invalid := by
+  apply save_error
+  apply mapM_error_of_exists
+  · intro x _ e he; exact encRecording_error_invalid he
+  · exact ⟨r, hr, .invalid, encRecording_of_error (relativeTo_not_inside _ _ hout)⟩
+
+/-- a reachable recording outside the audio directory makes `save` fail as a whole (`ValueError`),
+    for all eight collection types.  The hypothesis of coherence (part of `WF`) is necessary:
+    see `C18_outside_fails_needs_coherence`. -/
+theorem C18_outside_fails (c : Collection) (A : PPath) (r : Recording)
+    (hc : CoherentBy (·.uuid) (recsOf c.trav)) (hr : r ∈ recsOf c.trav) (hout : ¬ inside r.path A) :
+    save c (some A) = .error .invalid :=
+  outside_fails_src c A r ((recSrc_iff_of_coherent hc).2 hr) hout
+
+example : CoherentBy (·.uuid) (recsOf exBad.trav) ∧ recOut ∈ recsOf exBad.trav ∧ ¬ inside recOut.path exA :=
+  ⟨(WF_of_wfB (c := exBad) (by decide)).recs, by decide, by decide⟩
+example : save exBad (some exA) = .error .invalid := by decide
+
+/-- without coherence the statement is false: two recording objects share the uuid `r1`, the first one
+    (inside `exA`) is the one the recording table keeps, the second one lies outside, and saving
+    succeeds -/
+theorem C18_outside_fails_needs_coherence :
+    ¬ (∀ (c : Collection) (A : PPath) (r : Recording), r ∈ recsOf c.trav → ¬ inside r.path A →
+        save c (some A) = .error .invalid) := by
+  intro h
+  have := h exIncoh exA recOutSame (by decide) (by decide)
+  exact absurd this (by decide)
+
+theorem C18_outside_fails_wf (c : Collection) (A : PPath) (r : Recording)
+    (hwf : WF c) (hr : r ∈ recsOf c.trav) (hout : ¬ inside r.path A) :
+    save c (some A) = .error .invalid :=
+  C18_outside_fails c A r hwf.recs hr hout
+
+/-- recording sets and datasets encode their member list itself: no coherence needed -/
+theorem C18_outside_fails_recordingSet (x : RecordingSet) (A : PPath) (r : Recording)
+    (hr : r ∈ recsOf (Collection.recordingSet x).trav) (hout : ¬ inside r.path A) :
+    save (.recordingSet x) (some A) = .error .invalid := by
+  apply outside_fails_src _ A r _ hout
+  simpa only [recSrc, mem_recsOf, Collection.trav, recording_mem_flatMap_recAll] using hr
+
+theorem C18_outside_fails_dataset (x : Dataset) (A : PPath) (r : Recording)
+    (hr : r ∈ recsOf (Collection.dataset x).trav) (hout : ¬ inside r.path A) :
+    save (.dataset x) (some A) = .error .invalid := by
+  apply outside_fails_src _ A r _ hout
+  simpa only [recSrc, mem_recsOf, Collection.trav, recording_mem_flatMap_recAll] using hr
+
+example : recOut ∈ recsOf exBadRS.trav ∧ ¬ inside recOut.path exA ∧ save exBadRS (some exA) = .error .invalid := by
+  decide
+
+example : recOut ∈ recsOf (Collection.dataset ⟨"ds", [recIn, recOut], "t", "n", none⟩).trav ∧
+    save (.dataset ⟨"ds", [recIn, recOut], "t", "n", none⟩) (some exA) = .error .invalid := by decide
+
+/-- when every reachable recording lies inside `A`, saving succeeds -/
+theorem C18_inside_succeeds (c : Collection) (A : PPath)
+    (hin : ∀ r ∈ recsOf c.trav, inside r.path A) : ∃ d, save c (some A) = .ok d := by
+  have : ∃ rs, (recSrc c).mapM (encRecording (tagTable c.trav) (some A)) = .ok rs := by
+    apply mapM_ok_of_forall
+    intro r hr
+    exact ⟨_, encRecording_ok_iff.2 ⟨_, relativeTo_inside _ _ (hin r (recSrc_subset hr)), rfl⟩⟩
+  obtain ⟨rs, hrs⟩ := this
+  obtain ⟨d, hd, _⟩ := save_ok hrs
+  exact ⟨d, hd⟩
+
+example : ∀ r ∈ recsOf exGood.trav, inside r.path exA := by decide
+
+/-! ### `parse` (string level) -/
+
+theorem parse_parts_ok (str : String) : ∀ s ∈ (parse str).parts, s ≠ "" ∧ s ≠ "." :=
+  SE.Paths.parse_parts_ok str
+
+theorem parse_root_ok (str : String) :
+    (parse str).root = "" ∨ (parse str).root = "/" ∨ (parse str).root = "//" :=
+  SE.Paths.parse_root_ok str
+
+/-- `Path(str(p)) == p` for well-formed paths -/
+theorem C18_parse_render (p : PPath) (h : p.WF) : parse (render p) = p := parse_render p h
+
+example : exX.WF ∧ exA.WF ∧ (⟨"//", ["..", "x"]⟩ : PPath).WF ∧ (⟨"", []⟩ : PPath).WF :=
+  ⟨⟨by decide, by decide⟩, ⟨by decide, by decide⟩, ⟨by decide, by decide⟩, ⟨by decide, by decide⟩⟩
+
+/-- rendering and parsing of the example paths (`String.splitOn` is defined by well-founded recursion on
+    byte positions and does not evaluate in the kernel: `splitOn_slash` moves to the character list) -/
+example : render exX = "sub dir/ñ.wav" ∧ render exA = "/data/audio" := by decide +kernel
+example : parse "/data/audio" = exA := by unfold parse; rw [splitOn_slash]; decide
+example : parse "sub dir/ñ.wav" = exX := by unfold parse; rw [splitOn_slash]; decide
+example : parse "/data//audio/./" = exA := by unfold parse; rw [splitOn_slash]; decide
+example : parse "///mnt/x" = exB ∧ (parse "//mnt/x").root = "//" := by
+  unfold parse; rw [splitOn_slash, splitOn_slash]; decide
 
 end SE.Proofs.C18
